@@ -17,7 +17,7 @@ T=$(/venv/bin/python -m pytest -q -p no:cacheprovider 2>&1 | tail -1)
 D1=$(run_demo mutated)
 declare -A RC
 for P in $PROP $EXTRA; do
-  ( cd /verif && timeout 1800 bin/check $P --tier quick > "$OUT/check.$P.log" 2>&1 ); RC[$P]=$?
+  ( cd /verif && VERIF_EVIDENCE_DIR="$OUT/evidence" VERIF_REPLAY_DIR="$OUT/replays" timeout 1800 bin/check $P --tier quick > "$OUT/check.$P.log" 2>&1 ); RC[$P]=$?
 done
 git apply -R "$OUT/patch.diff"; git checkout -- . ; git clean -fdq -- packages generator tests 2>/dev/null
 CHECKS=$(for P in $PROP $EXTRA; do printf '"%s": %s, ' $P ${RC[$P]}; done)
